@@ -64,8 +64,26 @@ def r1_declared_outcomes(ctx, rule_prefix='C07.R1'):
     for o in seen['DepthTooLow']:
         conds = [(a, v) for a, v in o.conds]
         first_calls = [e[1] for e in o.events if e[0] == 'call']
-        guard = [c for c in conds if c[0][0] == 'bin' and c[0][1] == 'Lt' and c[0][3] == C(1) and is_true(c[1])
-                 and any(s[0] == 'call' and s[1] == AB + 'SearchContext::search_depth' for s in subterms(c[0]))]
+        # the conditions of this path that test the configured depth hold exactly when the depth is 0 (any spelling: < 1, == 0, ...)
+        dterms = {s for c in conds for s in subterms(c[0]) if s[0] == 'call' and s[1] == AB + 'SearchContext::search_depth'}
+        dconds = [c for c in conds if any(s in dterms for s in subterms(c[0]))]
+        guard = False
+        if dconds:
+            try:
+                from sa.evalterm import ev, Unevaluable
+                def holds(d):
+                    env = {t: d for t in dterms}
+                    for a, v in dconds:
+                        x = ev(a, env)
+                        if isinstance(v, tuple) and v[0] == 'not':
+                            if x in v[1]:
+                                return False
+                        elif x != int(v):
+                            return False
+                    return True
+                guard = holds(0) and not any(holds(d) for d in range(1, 256))
+            except Exception:
+                guard = False
         ok = bool(guard) and not any(GEN_EFF == x or 'par_iter' in x for x in first_calls)
     ctx.ob(rule, SEARCH, 'Err(DepthTooLow) returned under search_depth() < 1 before generating or searching', ok,
            found=[[show_cond(c) for c in o.conds] for o in seen['DepthTooLow']][:2], expected='if search_depth() < 1 { return Err(DepthTooLow) }',
